@@ -540,7 +540,7 @@ def gen_derive(rng, w, t):
         I = [rng.randrange(mm) for _ in range(cnt)]
         J = [rng.randrange(nn) for _ in range(cnt)]
         vt = rng.choice(['d', 'd', 'z', 'i'])
-        form = rng.choice(['list', 'list', 'scalar', 'matrix', 'nosize', 'badlen', 'oor', 'neg', 'tc', 'tc_i'])
+        form = rng.choice(['list', 'list', 'scalar', 'matrix', 'nosize', 'badlen', 'oor', 'neg', 'tc', 'tc_i', 'tuple', 'array', 'range'])
         V = [rint(rng, 'd' if vt == 'i' else vt) for _ in range(cnt)]
         if vt == 'i':
             V = [int(v) for v in V]
@@ -1210,6 +1210,16 @@ def apply(op, w, stats):
             elif form == 'matrix':
                 Varg = matrix(V, (len(V), 1), 'z' if any(isinstance(v, complex) for v in V) else 'd') if V else V
                 I, J = (matrix(I, (len(I), 1), 'i') if I else I), (matrix(J, (len(J), 1), 'i') if J else J)
+            elif form == 'tuple':
+                Varg, I, J = tuple(V), tuple(I), tuple(J)
+            elif form == 'array' and not any(isinstance(v, complex) for v in V):
+                import array as _array
+                Varg, I, J = _array.array('d', [float(v) for v in V]), _array.array('l', I), _array.array('l', J)
+            elif form == 'range' and len(I):
+                # consecutive positions down one column
+                k_ = min(len(I), mm)
+                I, J, V = list(range(k_)), [0] * k_, V[:k_]
+                Varg, I = V, range(k_)
             else:
                 Varg = V
             if form == 'badlen' and len(I):
